@@ -284,7 +284,16 @@ def r02g(ctx):
           "C18", c18.r18e, "R18e", kind="N")
 
 
+def r02h(ctx):
+    """Equal numbers of solutions in both directions need the duplicate-path filter of the layered tracer to trim the two ends of a path alike:
+    C18's R18i, reported here as well."""
+    from . import c18
+    from ._cross import relay
+    relay(ctx, "R02h", "layered tracer: a duplicate end point is cut from path, depths and directions with the same slice, at either end (= R18i)", "C18", c18.r18i, "R18i", kind="N")
+
+
 def run(ctx):
+    ctx.guard(r02h)
     ctx.guard(r02g)
     ctx.guard(r02e)
     ctx.guard(r02f)
